@@ -66,6 +66,31 @@ def _trees(n: int):
     return out
 
 
+def _probe_tree():
+    """A tree of files that are only interesting TOGETHER: extensionless scripts whose language is
+    sniffed from the shebang (python next to shell), two findings on one line that differ only in
+    the column, and pairs in which one file defines a name that would change the reading of the
+    other if analyzer state leaked between files.  It lives under a parent directory called
+    `build` so that the absolute spelling of every target runs through an always-excluded NAME
+    that lies above the project root (e.g. a CI checkout below /…/build/)."""
+    from mc.checks.c08 import PROBES  # noqa: PLC0415
+
+    files = {
+        "bin/tool": "#!/usr/bin/env python3\nimport sys\n\n\ndef main(argv):\n    print(argv)\n    if len(argv) > 7:\n        return 42\n    return 0\n",
+        "bin/runner": "#!/bin/sh\n# def main(argv): print(argv)\necho 42\nexit 7\n",
+        "twice.py": "def area(w, h):\n    return 3.5 * w + 3.5 * h\n",
+        "twice.ts": "export function area(w: number, h: number): number {\n  return 3.5 * w + 3.5 * h;\n}\n",
+    }
+    for n in ("probe_alias.py", "probe_regex.py", "probe_list.py", "probe_str.py"):
+        files["pairs/" + n] = PROBES[n]
+    _zoo, cfg, _index = load.zoo_project()
+    return files, load.deep_merge(cfg, {"dry": {"enabled": True}})
+
+
+def _tree(item):
+    return _probe_tree() if item["tree"] == -1 else _trees(item["n"])[item["tree"]]
+
+
 def _ms(vs):
     return collections.Counter(vs)
 
@@ -84,7 +109,7 @@ def _perfile(vs):
 def items(tier: str, seed: int):
     n = 3 if tier == "quick" else 8
     out = []
-    for t in range(n):
+    for t in [*range(n), -1]:
         out.append({"kind": "lib-subsets", "tree": t, "n": n})
         for block in chunks(load.ALL_COMMANDS, 4):
             out.append({"kind": "cli", "tree": t, "n": n, "cmds": block, "all_subsets": tier == "thorough"})
@@ -125,12 +150,24 @@ def _diff_fail(acc, sig, case, want, got, note=""):
 
 def run_item(item) -> Acc:
     acc = Acc()
-    files, cfg = _trees(item["n"])[item["tree"]]
-    root = project({**files, ".thailint.yaml": yaml_dump(cfg)})
+    files, cfg = _tree(item)
+    root = project({**files, ".thailint.yaml": yaml_dump(cfg)}, name="build/proj" if item["tree"] == -1 else "proj")
     names = sorted(files)
     k = item["kind"]
     if k == "lib-subsets":
         single = {f: _lib_files(root, cfg, [f]) for f in names}
+        if item["tree"] == -1:
+            # reference taken with no history at all: each file alone in its own fresh interpreter
+            fresh = obs.api_subprocess(root, dict(cfg), [[f] for f in names])
+            for f, vs in zip(names, fresh):
+                acc.case()
+                acc.edge()
+                ref = None if vs is None else _nm(obs.norm(vs, root, root), root)
+                if ref is None:
+                    acc.fail({"edge": "fresh-process-reference", "mode": "no-output"}, {"tree": -1, "target": [f]}, "JSON", None)
+                    continue
+                _diff_fail(acc, {"edge": "single-file-fresh-process-vs-in-process", "entry": "library"}, {"tree": -1, "target": [f], "fresh": True}, ref, single[f], "the file linted alone in a fresh interpreter vs alone in a process that linted other files before")
+                single[f] = ref
         whole = _lib_dir(root, cfg)
         acc.case(len(names) + 1)
         union = [t for f in names for t in _perfile(single[f])]
@@ -177,6 +214,12 @@ def run_item(item) -> Acc:
             for f in names:
                 single[f], r = cli([f])
                 acc.case()
+                if item["tree"] == -1:
+                    rs = obs.cli_json([cmd, f], root, sub=True)
+                    ref = [t for t in _nm(obs.norm(rs["violations"] or [], root, root), root) if t[1] in files]
+                    acc.edge()
+                    _diff_fail(acc, {"edge": "single-file-fresh-process-vs-in-process", "entry": "cli", "command": cmd}, {"tree": -1, "cmd": cmd, "target": f, "fresh": True}, ref, single[f], "CLI on the file in a fresh interpreter vs in a process that linted other files before")
+                    single[f] = ref
                 # library vs CLI on the single file
                 env.reset_caches()
                 with obs.cwd(root):
@@ -197,6 +240,12 @@ def run_item(item) -> Acc:
             if whole or lib:
                 acc.nt((item["tree"], cmd, ".", "lib-vs-cli"))
             _diff_fail(acc, {"edge": "library-vs-cli", "target": "dir", "command": cmd}, {"tree": item["tree"], "cmd": cmd, "target": "."}, whole, lib, "Linter.lint(dir) vs CLI on the same directory")
+            # the same directory spelled as an absolute path
+            whole_abs, r = cli([str(root)])
+            whole_abs = [t for t in whole_abs if t[1] in files]
+            acc.case()
+            acc.edge()
+            _diff_fail(acc, {"edge": "dir-dot-vs-absolute", "entry": "cli", "command": cmd}, {"tree": item["tree"], "cmd": cmd, "target": "<absolute project dir>"}, whole, whole_abs, "CLI on `.` vs CLI on the absolute path of the same directory")
             if cross:
                 continue
             union_all = [t for f in names for t in single[f]]
@@ -234,6 +283,8 @@ def run_item(item) -> Acc:
 
 def replay_case(case) -> list[dict]:
     n = 8 if case["tree"] >= 3 else 3
+    if case.get("target") == "<absolute project dir>":
+        case = {**case, "target": "<absolute project dir>"}
     if "cmd" in case:
         a = run_item({"kind": "cli", "tree": case["tree"], "n": n, "cmds": [case["cmd"]], "all_subsets": True})
     else:
